@@ -399,8 +399,10 @@ def scan_lexicons(source: AnyPath) -> list[ScanInfo]:
     infos: list[ScanInfo] = []
 
     lex_re = re.compile(b'<(Lexicon|LexiconExtension|Extends)\\b([^>]*)>', flags=re.M)
+    # match every attribute so that the values of other attributes are
+    # skipped over and never searched for id, version, or label
     attr_re = re.compile(
-        b'''\\b(id|version|label)\\s*=\\s*(?:"([^"]*)"|'([^']*)')''', flags=re.M
+        b'''([^\\s=]+)\\s*=\\s*(?:"([^"]*)"|'([^']*)')''', flags=re.M
     )
 
     with open(source, 'rb') as fh:
